@@ -111,3 +111,38 @@ func itoa(i int) string {
 func isPointerLike(v ssa.Value) bool {
 	return isNillable(v.Type())
 }
+
+// Mutations is LocalMutations with calls into module functions resolved through
+// per-parameter summaries (analysis A5): a "pass→callee#i" entry is kept only
+// when callee (transitively) mutates its i-th parameter, and then names what
+// the callee does.
+func (p *Program) Mutations(fn *ssa.Function, root ssa.Value) []Mutation {
+	return p.mutations(fn, root, map[string]bool{})
+}
+
+func (p *Program) mutations(fn *ssa.Function, root ssa.Value, busy map[string]bool) []Mutation {
+	var out []Mutation
+	for _, m := range LocalMutations(fn, root) {
+		if !strings.HasPrefix(m.What, "pass→") {
+			out = append(out, m)
+			continue
+		}
+		ci := m.Instr.(ssa.CallInstruction)
+		g := StaticFn(ci.Common())
+		idx := int(m.What[len(m.What)-1] - '0')
+		if g == nil || idx >= len(g.Params) {
+			continue
+		}
+		key := FuncKey(g) + "#" + itoa(idx)
+		if busy[key] {
+			continue
+		}
+		busy[key] = true
+		inner := p.mutations(g, g.Params[idx], busy)
+		delete(busy, key)
+		for _, im := range inner {
+			out = append(out, Mutation{m.Instr, Short(FuncKey(g)) + ":" + im.What})
+		}
+	}
+	return out
+}
